@@ -57,7 +57,7 @@ class Cfg:
         self.n_ops = rng.randint(150, 300) if long else rng.randint(5, 40)
         self.invalid_rate = rng.choice([0.0, 0.1, 0.15])
         self.hub = False
-        if big and rng.random() < 0.5:
+        if big == "hub" or (big is True and rng.random() < 0.5):
             # hub: few labels, very many hyperedges through each of them (degrees beyond 64), many re-insertions
             big = False
             self.hub = True
@@ -66,7 +66,7 @@ class Cfg:
             self.max_size = 5
             self.n_ops = rng.randint(500, 900)
             self.invalid_rate = 0.0
-        if big:  # scale: tens of labels, hundreds of hyperedges, hundreds of operations
+        if big in (True, "scale"):  # scale: tens of labels, hundreds of hyperedges, hundreds of operations
             self.uni_name = "wide"
             base = rng.choice([0, 1000, -50])
             self.labels = [base + 3 * i for i in range(rng.randint(30, 60))]
@@ -165,7 +165,7 @@ def gen_op(rng, cfg, S):
     kind = cfg.kind
     names = [n for n in OPS_BY_KIND[kind] if n not in cfg.avoid]
     if getattr(cfg, "hub", False):  # mostly insertions: the structure keeps growing
-        wts = [OP_WEIGHTS[n] * (6 if n in ("add_edge", "add_edges") else 0.2 if n in ("remove_node", "remove_nodes", "clear") else 1) for n in names]
+        wts = [OP_WEIGHTS[n] * (6 if n in ("add_edge", "add_edges") else 0 if n == "clear" else 0.03 if n in ("remove_node", "remove_nodes") else 0.3 if n in ("remove_edge", "remove_edges") else 1) for n in names]
     else:
         wts = [OP_WEIGHTS[n] for n in names]
     name = rng.choices(names, wts)[0]
@@ -292,6 +292,87 @@ def gen_op(rng, cfg, S):
             f = rng.choice(sorted(S.edges[k][1]))
         return name, {"key": k, "f": f}
     return name, {}
+
+
+def hub_script(rng, cfg):
+    """A scripted history (same abstract op format as gen_op) in which ONE node ends up in 70-140 hyperedges -
+    for a directed container mostly in one role - and OLD hyperedges (inserted long before the node's most
+    recent ones) are then re-inserted, re-weighted, removed and inserted again.  Look-back windows, per-node
+    caps and tail-only de-duplication in the incidence bookkeeping only show beyond a few dozen hyperedges
+    per node, which random histories over 8 labels rarely reach."""
+    kind = cfg.kind
+    base = rng.choice([0, 1000, -300])
+    hub = base
+    leaves = [base + 2 * i + 1 for i in range(40)]
+    cfg.labels = [hub] + leaves
+    cfg.uni_name = "wide"
+    role = rng.choice(["source", "target"])
+    keys, seen = [], set()
+    n_keys = rng.randint(70, 140)
+    while len(keys) < n_keys:
+        others = rng.sample(leaves, rng.randint(1, 3))
+        if kind == "H":
+            k = frozenset([hub] + others)
+        elif kind == "D":
+            r = role if rng.random() < 0.85 else ("target" if role == "source" else "source")
+            cut = rng.randint(0, len(others) - 1)
+            a, b = frozenset([hub] + others[:cut]), frozenset(others[cut:])
+            k = (a, b) if r == "source" else (b, a)
+        elif kind == "T":
+            k = (rng.randint(0, 3), frozenset([hub] + others))
+        else:
+            k = (frozenset([hub] + others), rng.choice(cfg.layers))
+        if k not in seen:
+            seen.add(k)
+            keys.append(k)
+
+    def w():
+        return rand_w(rng, cfg)
+
+    def add(k):
+        return "add_edge", {"key": k, "w": w(), "md": rand_md(rng)}
+
+    def add_many(ks):
+        use_w = cfg.weighted and rng.random() < 0.7
+        use_md = rng.random() < 0.5
+        return "add_edges", {"items": [(k, rng.choice(WEIGHTS) if use_w else None, rand_md(rng) if use_md else None) for k in ks],
+                             "use_w": use_w, "use_md": use_md, "may_refuse": False}
+
+    ops = [("add_node", {"n": hub, "md": {"role": "hub"}})]
+    i = 0
+    while i < len(keys):  # phase 1: the hub's hyperedges, singly and in batches
+        if rng.random() < 0.3:
+            ops.append(add_many(keys[i:i + 3]))
+            i += 3
+        else:
+            ops.append(add(keys[i]))
+            i += 1
+    old = keys[: max(5, len(keys) - 66)]  # older than the hub's 66 most recent hyperedges
+    for _ in range(rng.randint(10, 20)):  # phase 2: re-insert old ones (weight accumulation / metadata update)
+        ops.append(add(rng.choice(old)) if rng.random() < 0.7 else add_many(rng.sample(old, min(len(old), 2))))
+    for k in rng.sample(keys, 8):
+        ops.append(("set_weight", {"key": k, "w": rng.choice(WEIGHTS) if cfg.weighted else 1}))
+        ops.append(("set_edge_metadata", {"key": k, "md": rand_md(rng) or {}}))
+    gone = rng.sample(keys, 12)
+    for k in gone[:6]:  # phase 3: removals, also of old and of re-inserted ones
+        ops.append(("remove_edge", {"key": k}))
+    ops.append(("remove_edges", {"keys": gone[6:9]}))
+    ops.append(("remove_node", {"n": rng.choice(leaves), "keep": rng.random() < 0.5}))
+    for k in gone[:5] + rng.sample(old, min(len(old), 5)):  # phase 4: back again, and old ones once more
+        ops.append(add(k))
+    ops.append(("copy", {}))
+    for k in rng.sample(old, min(len(old), 4)):
+        ops.append(add(k))
+    # only what the container offers: a batch removal becomes single removals, a metadata replacement an attribute update
+    out = []
+    for name, a in ops:
+        if name in OPS_BY_KIND[kind]:
+            out.append((name, a))
+        elif name == "remove_edges":
+            out.extend(("remove_edge", {"key": k}) for k in a["keys"])
+        elif name == "set_edge_metadata":
+            out.append(("set_attr_edge", {"key": a["key"], "f": rng.choice(FIELDS), "v": copy.deepcopy(rng.choice(VALUES))}))
+    return out
 
 
 # -------------------------------------------------------------------------------------
